@@ -6,9 +6,11 @@
    on_iteration / on_disable) may raise at any of its invocations: [raises k] says whether
    the k-th callback invocation of the run does.  [in_flight w] = an exception is
    propagating (the robot program dies).  setup() is not in the property's list and is not
-   guarded by the code: [setup_quiet] says no setup() raises.  Statements only. *)
+   guarded by the code: [setup_quiet] says no setup() raises.  The FMS may be attached or
+   detached between loop passes ([Fms b] ticks); [fms_ticks_stay v ts] says it is not.
+   Statements only. *)
 From Coq Require Import ZArith List Bool.
-From RV Require Import Robot.Model Robot.Proofs Robot.Loop Robot.Lifecycle Robot.Examples.
+From RV Require Import Robot.Model Robot.Proofs Robot.Loop Robot.Mixed Robot.Lifecycle Robot.Examples.
 Import ListNotations.
 Open Scope Z_scope.
 
@@ -20,13 +22,13 @@ Variable fbval : nat -> Z.
 
 (* FMS attached: for any set of faulty invocations (single, multiple, every time) every
    callback of the specified sequence still runs, in order, and the robot is still running *)
-Theorem C07_fms_every_callback_still_runs : forall ts, fms c = true -> setup_quiet c raises ->
+Theorem C07_fms_every_callback_still_runs : forall ts, fms c = true -> fms_ticks_stay true ts = true -> setup_quiet c raises ->
   sites (snd (robot_run c raises writes fbval ts)) = spec_sites c ts
   /\ in_flight (fst (robot_run c raises writes fbval ts)) = false.
 Proof. exact (fun ts => run_fms c raises writes fbval ts). Qed.
 
 (* ... i.e. the calls made are those of the fault-free robot *)
-Theorem C07_fms_calls_independent_of_faults : forall ts, fms c = true -> setup_quiet c raises ->
+Theorem C07_fms_calls_independent_of_faults : forall ts, fms c = true -> fms_ticks_stay true ts = true -> setup_quiet c raises ->
   sites (snd (robot_run c raises writes fbval ts)) = sites (snd (robot_run c (fun _ => false) writes fbval ts)).
 Proof. exact (fun ts => run_fms_independent_of_faults c raises writes fbval ts). Qed.
 
@@ -37,7 +39,7 @@ Proof. exact (fun cur ts => safe_ticks c ts cur). Qed.
 
 (* FMS not attached: the first raising invocation is the last callback that runs; the
    exception propagates out of the robot program *)
-Theorem C07_no_fms_crashes_at_first_fault : forall ts, fms c = false ->
+Theorem C07_no_fms_crashes_at_first_fault : forall ts, fms c = false -> fms_ticks_stay false ts = true ->
   match first_raise raises 0 (length (spec_sites c ts)) with
   | Some i => sites (snd (robot_run c raises writes fbval ts)) = firstn (S i) (spec_sites c ts)
               /\ in_flight (fst (robot_run c raises writes fbval ts)) = true
@@ -45,6 +47,25 @@ Theorem C07_no_fms_crashes_at_first_fault : forall ts, fms c = false ->
             /\ in_flight (fst (robot_run c raises writes fbval ts)) = false
   end.
 Proof. exact (fun ts => run_nofms c raises writes fbval ts). Qed.
+
+(* The FMS attached and detached at will while the robot runs: the run makes exactly the
+   specified calls up to and including the first raising invocation that happens WHILE THE FMS
+   IS NOT ATTACHED ([spec_fms]: the FMS state in force at each call of the specified sequence),
+   and the robot dies there and only there.  The two theorems above are the instances
+   "always attached" and "never attached". *)
+Theorem C07_decided_by_the_fms_state_at_the_fault : forall ts, setup_quiet c raises ->
+  match first_fatal raises 0 (spec_fms c ts) with
+  | Some i => sites (snd (robot_run c raises writes fbval ts)) = firstn (S i) (spec_sites c ts)
+              /\ in_flight (fst (robot_run c raises writes fbval ts)) = true
+  | None => sites (snd (robot_run c raises writes fbval ts)) = spec_sites c ts
+            /\ in_flight (fst (robot_run c raises writes fbval ts)) = false
+  end.
+Proof. exact (run_mixed c raises writes fbval). Qed.
+
+Theorem C07_first_fatal_is_the_first : forall fl k0 i, first_fatal raises k0 fl = Some i ->
+  raises (k0 + i) = true /\ nth i fl true = false /\
+  (forall j, (j < i)%nat -> raises (k0 + j) = false \/ nth j fl true = true).
+Proof. exact (first_fatal_some raises). Qed.
 
 Theorem C07_first_raise_is_the_first : forall k0 n i, first_raise raises k0 n = Some i ->
   (i < n)%nat /\ raises (k0 + i) = true /\ (forall j, (j < i)%nat -> raises (k0 + j) = false).
@@ -68,3 +89,5 @@ Print Assumptions C07_fms_calls_independent_of_faults.
 Print Assumptions C07_every_callback_is_guarded.
 Print Assumptions C07_no_fms_crashes_at_first_fault.
 Print Assumptions C07_first_raise_is_the_first.
+Print Assumptions C07_decided_by_the_fms_state_at_the_fault.
+Print Assumptions C07_first_fatal_is_the_first.
